@@ -120,6 +120,7 @@ pub fn run_family_into(report: &mut Report, property: &str, family: &str, config
     }
 
     report.set("engine", json!("E1 explicit-state BFS over the real ProtocolState (feature verif facade), histories re-executed from a fresh engine"));
+    report.set("rule", json!("state = canonical 128-bit key of (real engine snapshot with operation ids ranked, intake queues sorted while their order is unobservable, decoder/encoder/resolver state; driver model: unwritten bytes, clock; broker model: session, pending replies; monitor obligations); transition = one event of the alphabet (submit, open, service, flush/leak, broker reply incl. reordered/failing/hostile ones, close, clock jumps) applied to a fresh real engine by re-executing the whole history; every history is one trace validated against the implementation; distinct_outcomes = distinct (operation results, wire packet sequence) digests at terminal states; deviation budget and depth per configuration as listed"));
     report.set("family", json!(family));
     report.set("configs", json!(configs.len()));
     report.add_count("states", states);
